@@ -76,7 +76,9 @@ class RecordingCache(MemoryCache):
 
     def exists(self, evaluatable, options):
         rt.call("backend", self.name + ".exists")
-        return super().exists(evaluatable, options)
+        found = super().exists(evaluatable, options)
+        rt.call("backend", self.name + (".exists=hit" if found else ".exists=miss"))
+        return found
 
     def __repr__(self):
         return f"RecordingCache({self.name})"
